@@ -12,7 +12,9 @@ fn dfs(ctx: &mut Ctx, node: &Node, seen: &mut FxSet<TurnKey>, max_turns: usize, 
     if report::stopped() {
         return;
     }
-    let key = turn_key(node, max_turns > 1);
+    // C14: path-sensitive key (see turn_key), except on the full-board seeds where every order of four steps would be
+    // expanded separately (the padded FPX family and the scripted games cover many-piece boards)
+    let key = turn_key(node, max_turns > 1, ctx.on(C14) && !ctx.root.family.starts_with("FS "));
     if !seen.insert(key) {
         return;
     }
